@@ -1,9 +1,9 @@
 package main
 
 import (
-	"golang.org/x/tools/go/ssa"
 	"fmt"
 	"go/types"
+	"golang.org/x/tools/go/ssa"
 	"math/big"
 	"os"
 	"strconv"
@@ -16,50 +16,51 @@ type Clause struct {
 }
 
 type LoopAnn struct {
-	Auto      bool     // synthesised in sweep mode (invariants inferred, see autoinv.go)
-	Surviving []string // labels of inferred invariants
-	UnfoldInit []*SExp // unfold instances needed only to establish the invariant on entry
-	Inv       []*Clause
-	Unfold    []*SExp
-	Decreases *SExp
-	Apply     []*SExp   // facts justified by lemmas, assumed at the loop head
-	Asserts   []*Clause // proof steps checked (then assumed) at the end of an iteration, before the invariant
+	Auto        bool     // synthesised in sweep mode (invariants inferred, see autoinv.go)
+	Surviving   []string // labels of inferred invariants
+	UnfoldInit  []*SExp  // unfold instances needed only to establish the invariant on entry
+	Inv         []*Clause
+	Unfold      []*SExp
+	Decreases   *SExp
+	Apply       []*SExp   // facts justified by lemmas, assumed at the loop head
+	Asserts     []*Clause // proof steps checked (then assumed) at the end of an iteration, before the invariant
 	AssertsNext []*Clause // same, but loop-carried names denote the values for the next iteration (x@head = this iteration's)
 }
 
 type Contract struct {
-	Name      string
-	Pkg       string
-	Params    []string
-	Requires  []*Clause
-	Ensures   []*Clause
-	Modifies  []*SExp
-	Escapes   []*SExp
-	Fresh     []*SExp
-	GhostSets []*Clause
-	GhostHavoc []string // ghost variables the function may change arbitrarily (constrained only by ensures)
-	PanicsIf  *SExp
-	Loops     map[int]*LoopAnn
-	Inline    bool
-	FreshOrNil []*SExp
-	AutoLoops bool
-	Trusted   bool
-	Sweep     bool
-	Uses      []string
-	Lemmas    []*SExp // assumed spec facts instantiated: (apply ...)
-	NoFrame   bool
+	Name         string
+	Pkg          string
+	Params       []string
+	Requires     []*Clause
+	Ensures      []*Clause
+	Modifies     []*SExp
+	HasModifies  bool // a modifies clause was written (possibly empty): the frame is checked also in sweep mode
+	Escapes      []*SExp
+	Fresh        []*SExp
+	GhostSets    []*Clause
+	GhostHavoc   []string // ghost variables the function may change arbitrarily (constrained only by ensures)
+	PanicsIf     *SExp
+	Loops        map[int]*LoopAnn
+	Inline       bool
+	FreshOrNil   []*SExp
+	AutoLoops    bool
+	Trusted      bool
+	Sweep        bool
+	Uses         []string
+	Lemmas       []*SExp // assumed spec facts instantiated: (apply ...)
+	NoFrame      bool
 	SplitReturns bool // exit obligations per return statement instead of one merged exit state
-	File      string
-	Canary    bool
-	Asserts   map[string][]*Clause // assert-at labels
-	Unfolds   []*SExp              // exit-time unfold instances
-	Tables    []*TableAx
-	Expand    map[string]bool // defined spec functions expanded by the generator
-	ExitApply []*SExp         // lemma instances assumed at function exit (elaborated in the post state)
-	Steps     []*Clause       // proof steps checked in order at function exit, each assumed for the following
-	FreshFields []*SExp
-	Returns   [][2]*SExp // (returns <result leaf> <term>): exact definition of a result leaf
-	Int       bool
+	File         string
+	Canary       bool
+	Asserts      map[string][]*Clause // assert-at labels
+	Unfolds      []*SExp              // exit-time unfold instances
+	Tables       []*TableAx
+	Expand       map[string]bool // defined spec functions expanded by the generator
+	ExitApply    []*SExp         // lemma instances assumed at function exit (elaborated in the post state)
+	Steps        []*Clause       // proof steps checked in order at function exit, each assumed for the following
+	FreshFields  []*SExp
+	Returns      [][2]*SExp // (returns <result leaf> <term>): exact definition of a result leaf
+	Int          bool
 }
 
 // TableAx: forall j < N. tbl(j) = Expr(j), justified by a ground lemma over the concrete table.
@@ -212,6 +213,7 @@ func (p *Prog) parseContract(x *SExp, pkg string) (*Contract, error) {
 			c.Steps = append(c.Steps, &Clause{Label: "ensures:" + cl.Label, X: cl.X})
 		case "modifies":
 			c.Modifies = append(c.Modifies, args...)
+			c.HasModifies = true
 		case "escapes":
 			c.Escapes = append(c.Escapes, args...)
 		case "fresh":
